@@ -3,6 +3,8 @@ package engine
 import (
 	"bytes"
 	"fmt"
+	"os/exec"
+	"path/filepath"
 	"sort"
 	"strconv"
 	"strings"
@@ -289,6 +291,14 @@ func laneK_C15(r *Rng, base *Plan, dry *World, fr *RunResult, tier string, sink 
 		n = 8
 	}
 	kr := NewRng(Mix(base.Seed, 9090))
+	emit := func(f kFault) {
+		pl := base.Clone()
+		pl.Meta["lane"] = "K"
+		pl.Meta["kfault"] = f.Kind
+		pl.Meta["fsize"] = fmt.Sprint(f.N)
+		pl.Meta["kpath"] = f.Path
+		laneKOne(pl, dry, fr, f, sink)
+	}
 	for i := 0; i < n; i++ {
 		wr := Pick(kr, fr.Writes)
 		if len(wr.Content) < 3 {
@@ -302,11 +312,46 @@ func laneK_C15(r *Rng, base *Plan, dry *World, fr *RunResult, tier string, sink 
 				limit = int64(pf.Blocks[0].Start + 40 + kr.Intn(pf.Blocks[0].End-pf.Blocks[0].Start-80))
 			}
 		}
-		pl := base.Clone()
-		pl.Meta["lane"] = "K"
-		pl.Meta["fsize"] = fmt.Sprint(limit)
-		laneKOne(pl, dry, fr, limit, sink)
+		emit(kFault{Kind: "fsize", N: limit})
 	}
+	if straceBin() == "" {
+		return
+	}
+	// system-call faults on one of the files the run writes
+	m := 2
+	if tier == "thorough" {
+		m = 5
+	}
+	for i := 0; i < m; i++ {
+		wr := Pick(kr, fr.Writes)
+		kinds := []string{"kill-write", "err-write:ENOSPC", "err-write:EIO", "err-write:EDQUOT"}
+		if _, existed := fr.Before[wr.Path]; !existed {
+			kinds = append(kinds, "kill-close", "kill-close")
+		}
+		emit(kFault{Kind: Pick(kr, kinds), Path: wr.Path})
+	}
+}
+
+// kFault: a fault of lane K. fsize: file size limit N (a short write at byte N, error EFBIG).
+// kill-write / err-write:<errno> / kill-close: strace's system-call tampering on the one file Path -
+// the process is killed on entering write(2) (the file is already truncated: death after truncate),
+// write(2) fails with the errno without writing (error after truncate), or the process is killed on
+// entering close(2) of a file that did not exist before the run, so that the only close is the one
+// after the write (death after the write). None of them counts invocations (strace counts per
+// thread, and which thread a goroutine's system call runs on is not ours to decide): each hits
+// every matching call on that path, and there is exactly one.
+type kFault struct {
+	Kind string
+	N    int64
+	Path string
+}
+
+func straceBin() string {
+	p, err := exec.LookPath("strace")
+	if err != nil {
+		return ""
+	}
+	return p
 }
 
 func laneKApplies(base *Plan, fr *RunResult) bool {
@@ -324,15 +369,19 @@ func laneKApplies(base *Plan, fr *RunResult) bool {
 // laneK_replay: a lane K plan from a replay file (w is its fault-free lane S execution).
 func laneK_replay(plan *Plan, w *World, sink *Sink) {
 	fr := runOf(w, "faulted")
-	limit, _ := strconv.ParseInt(plan.Meta["fsize"], 10, 64)
-	if !laneKApplies(plan, fr) || limit <= 0 {
+	f := kFault{Kind: plan.Meta["kfault"], Path: plan.Meta["kpath"]}
+	f.N, _ = strconv.ParseInt(plan.Meta["fsize"], 10, 64)
+	if f.Kind == "" {
+		f.Kind = "fsize"
+	}
+	if !laneKApplies(plan, fr) || (f.Kind == "fsize" && f.N <= 0) || (f.Kind != "fsize" && straceBin() == "") {
 		return
 	}
-	laneKOne(plan, w, fr, limit, sink)
+	laneKOne(plan, w, fr, f, sink)
 }
 
-func laneKOne(pl *Plan, dry *World, fr *RunResult, limit int64, sink *Sink) {
-	fail := func(sig, f string, a ...any) { sink.LaneViolation(pl, sig, fmt.Sprintf(f, a...)) }
+func laneKOne(pl *Plan, dry *World, fr *RunResult, f kFault, sink *Sink) {
+	fail := func(sig, ff string, a ...any) { sink.LaneViolation(pl, sig, fmt.Sprintf(ff, a...)) }
 	dir, err := scratchDir()
 	if err != nil {
 		sink.res.Harness = append(sink.res.Harness, err.Error())
@@ -344,30 +393,71 @@ func laneKOne(pl *Plan, dry *World, fr *RunResult, limit int64, sink *Sink) {
 		return
 	}
 	yes := "y\n"
-	v := Mix(pl.Seed, uint64(limit))
+	v := Mix(pl.Seed, uint64(f.N)+uint64(len(f.Path)))
 	v -= v % 5 // plain directory argument: the lane is about the write, not the path
-	res, err := runBinaryLimited(dir, v, flagArgs(fr.Op.Flags), &yes, "UTC", limit)
+	var res *BinResult
+	what := fmt.Sprintf("a short write at byte %d", f.N)
+	if f.Kind == "fsize" {
+		res, err = runBinaryWrapped(dir, v, flagArgs(fr.Op.Flags), &yes, "UTC", []string{prlimitBin(), fmt.Sprintf("--fsize=%d", f.N)})
+	} else {
+		target := filepath.Join(dir, filepath.FromSlash(f.Path))
+		wrap := []string{straceBin(), "-f", "-qq", "-o", "/dev/null", "-P", target}
+		switch {
+		case f.Kind == "kill-write":
+			wrap = append(wrap, "-e", "trace=write", "-e", "inject=write:signal=SIGKILL")
+			what = "death on entering write(2) of " + f.Path
+		case f.Kind == "kill-close":
+			wrap = append(wrap, "-e", "trace=close", "-e", "inject=close:signal=SIGKILL")
+			what = "death on entering close(2) of " + f.Path
+		case strings.HasPrefix(f.Kind, "err-write:"):
+			wrap = append(wrap, "-e", "trace=write", "-e", "inject=write:error="+strings.TrimPrefix(f.Kind, "err-write:"))
+			what = "write(2) of " + f.Path + " failing with " + strings.TrimPrefix(f.Kind, "err-write:")
+		default:
+			sink.res.Harness = append(sink.res.Harness, "lane K: unknown fault "+f.Kind)
+			return
+		}
+		res, err = runBinaryWrapped(dir, v, flagArgs(fr.Op.Flags), &yes, "UTC", wrap)
+	}
 	if err != nil {
 		sink.res.Harness = append(sink.res.Harness, "lane K run: "+err.Error())
 		return
 	}
 	sink.Cell("lane:K")
 	mid, _ := readDirSnap(dir)
-	cut := ""
-	for _, w := range fr.Writes {
-		if e, ok := mid[w.Path]; ok && int64(len(e.Data)) == limit && int64(len(w.Content)) > limit+16 {
-			cut = w.Path
+	fired := ""
+	switch f.Kind {
+	case "fsize":
+		for _, w := range fr.Writes {
+			if e, ok := mid[w.Path]; ok && int64(len(e.Data)) == f.N && int64(len(w.Content)) > f.N+16 {
+				fired = w.Path
+			}
+		}
+	case "kill-write":
+		if e, ok := mid[f.Path]; ok && len(e.Data) == 0 && res.Exit != 0 {
+			fired = f.Path
+		}
+	case "kill-close":
+		if res.Exit < 0 || res.Exit > 128 {
+			fired = f.Path
+		}
+	default:
+		if e, ok := mid[f.Path]; ok && len(e.Data) == 0 {
+			fired = f.Path
 		}
 	}
-	if cut != "" {
-		sink.res.Faults["K-short-write"]++
-		sink.Cell("laneK:short-write")
+	name := "K-short-write"
+	if f.Kind != "fsize" {
+		name = "K-" + f.Kind
+	}
+	if fired != "" {
+		sink.res.Faults[name]++
+		sink.Cell("laneK:fired:" + strings.SplitN(f.Kind, ":", 2)[0])
 		if res.Exit == 0 {
-			fail("laneK:write-error-exit-0", "file size limit %d cut %s short, yet the binary exited 0: %s", limit, cut, res.Stdout)
+			fail("laneK:write-error-exit-0", "%s (%s), yet the binary exited 0: %s", what, fired, res.Stdout)
 			return
 		}
 	} else {
-		sink.Cell("laneK:limit-not-reached")
+		sink.Cell("laneK:fault-not-reached")
 	}
 	res2, err := runBinary(dir, v, flagArgs(DefaultFlags), &yes, "UTC")
 	if err != nil {
@@ -375,12 +465,12 @@ func laneKOne(pl *Plan, dry *World, fr *RunResult, limit int64, sink *Sink) {
 		return
 	}
 	if res2.Exit != 0 {
-		fail("laneK:recovery-run-failed", "after a short write at byte %d of %q the next default run exited %d: %s", limit, cut, res2.Exit, res2.Stdout)
+		fail("laneK:recovery-run-failed", "after %s the next default run exited %d: %s", what, res2.Exit, res2.Stdout)
 		return
 	}
 	after, _ := readDirSnap(dir)
 	for _, c := range dry.shadow(after).CheckChains(ChainOpts{RequireAll: true, CheckKeyIDs: true}) {
-		fail("laneK:after-recovery:"+c.Sig, "short write at byte %d of %q, then a default run: %s", limit, cut, c.Detail)
+		fail("laneK:after-recovery:"+c.Sig, "%s, then a default run: %s", what, c.Detail)
 		return
 	}
 	res3, err := runBinary(dir, v, flagArgs(DefaultFlags), nil, "UTC")
